@@ -23,8 +23,7 @@ Definition fld_of_opt {A} (o : option A) : fld A := match o with Some a => Has a
 (* the text of the value as set_default_doc writes it (quoted when the declared type asks for it) *)
 Definition shown_value (v : pyval) (t : option str) : outcome str :=
   let v' := if pyval_eqb v (VStr NoneStr) then VNone else v in
-  do nq <- needs_quoting t;
-  do s <- (if nq then quote_val v' else Ok v');
+  do s <- shown_default v' t;
   Ok (py_str s).
 
 (* the sentence.  For ADefaultsTo it is whatever set_default_doc writes (the real writer, name "x");
@@ -42,10 +41,19 @@ Definition render (a : announce) (d : str) (v : pyval) (t : option str) : outcom
     Ok (d ++ [sp] ++ announce_text a ++ s)
   end.
 
-(* "same value with the same Python type"; None travels as None, "None" or NoneStr in doctrans IRs *)
+(* prose that announces nothing *)
+Definition no_announce (line : str) : bool :=
+  forallb (fun a => negb (contains (casefold a) (casefold line))) default_announces.
+
+(* "same value with the same Python type".  v' is what extract_default returned; its consumer
+   interpolate_defaults stores unquote(v').  None travels as None, "None" or NoneStr in doctrans IRs. *)
 Definition none_like (v : pyval) : bool := in_none_types v.
 Definition same_default (v v' : pyval) : bool :=
-  pyval_eqb v v' || (none_like v && none_like v').
+  pyval_eqb v (unquote_val v') || (none_like v && none_like v').
+
+(* the domain of the property: non-empty prose that does not itself announce a default *)
+Definition C17_domain (d : str) : bool :=
+  negb (match d with [] => true | _ => false end) && no_announce d.
 
 (* the property at one point *)
 Definition C17_at (a : announce) (d : str) (v : pyval) (t : option str) : Prop :=
@@ -83,40 +91,28 @@ Definition c17_touches_unmodelled (a : announce) (d : str) (v : pyval) (t : opti
   | Err _ => false
   end.
 
-(* prose that announces nothing *)
-Definition no_announce (line : str) : bool :=
-  forallb (fun a => negb (contains (casefold a) (casefold line))) default_announces.
-
 (* ---- finding classes (the complement of the guard), most specific first ---- *)
 Inductive c17_class : Type :=
-| K_prose_empty               (* doc[-1] on "" raises IndexError *)
 | K_prose_no_terminal         (* a full stop is inserted before the sentence and never taken back *)
 | K_prose_mentions_defaults   (* "defaults"/"Defaults" anywhere in the prose suppresses writing the sentence *)
-| K_prose_announces           (* the prose itself contains an announcement phrase: found first *)
 | K_value_announces           (* the value text contains an announcement phrase of higher priority *)
-| K_negative_int_untyped      (* "-5".isdecimal() is False: comes back as float -5.0 *)
 | K_scan_cut                  (* value text has a full stop not followed by a digit at bracket depth 0, or brackets before one *)
 | K_strip_changes             (* value text begins/ends with space, tab or back-tick (code-quoted values lose their quoting) *)
 | K_paren_rule                (* value text ends with ")." and does not start with "(" *)
 | K_str_reads_as_other        (* an undeclared str value that reads as int/bool/float *)
 | K_typed_literal             (* declared scalar type: literal_eval of the text is not the value (bare words, quotes inside) *)
-| K_quote_non_str             (* quote() applied to a non-str under a str-like declared type: AttributeError *)
 | K_unmodelled.               (* outside the modelled fragment of float()/literal_eval/type syntax *)
 
 Definition class_name (k : c17_class) : str :=
   match k with
-  | K_prose_empty => L "prose-empty"
   | K_prose_no_terminal => L "prose-no-terminal-punctuation"
   | K_prose_mentions_defaults => L "prose-mentions-defaults"
-  | K_prose_announces => L "prose-contains-announcement"
   | K_value_announces => L "value-contains-announcement"
-  | K_negative_int_untyped => L "negative-int-untyped"
   | K_scan_cut => L "value-cut-at-full-stop"
   | K_strip_changes => L "value-stripped"
   | K_paren_rule => L "value-paren-rule"
   | K_str_reads_as_other => L "str-reads-as-other-type"
   | K_typed_literal => L "typed-literal-mismatch"
-  | K_quote_non_str => L "quote-non-str"
   | K_unmodelled => L "unmodelled"
   end.
 
@@ -135,44 +131,32 @@ Definition value_announce_ok (a : announce) (s : str) : bool :=
   end.
 
 Definition finding_class_C17 (a : announce) (d : str) (v : pyval) (t : option str) : option c17_class :=
-  match d with
-  | [] => Some K_prose_empty
-  | _ =>
-    if negb (ends_with_terminal d) then Some K_prose_no_terminal
-    else if contains (L "Defaults") d || contains (L "defaults") d then Some K_prose_mentions_defaults
-    else if negb (no_announce d) then Some K_prose_announces
-    else
-      match needs_quoting t with
-      | Err _ => Some K_unmodelled
-      | Ok nq =>
-        let v' := if pyval_eqb v (VStr NoneStr) then VNone else v in
-        match (if nq then quote_val v' else Ok v') with
-        | Err _ => Some K_quote_non_str
-        | Ok sv =>
-          let s := py_str sv in
-          if negb (value_announce_ok a s)
-          then Some K_value_announces
-          else if negb (str_eqb (scan_default s 0) s) then Some K_scan_cut
-          else if negb (str_eqb (strip_chars strip_set s) s) then Some K_strip_changes
-          else if negb (startswith [ch 40] s) && endswith (L ").") s then Some K_paren_rule
-          else
-            match coerce_default t s with
-            | Err Unmodelled => Some K_unmodelled
-            | Err _ => Some K_typed_literal
-            | Ok v2 =>
-              if same_default v v2 then None
-              else match v, t with
-                   | VInt _, None => Some K_negative_int_untyped
-                   | VStr _, None => Some K_str_reads_as_other
-                   | _, _ => Some K_typed_literal
-                   end
-            end
+  if negb (ends_with_terminal d) then Some K_prose_no_terminal
+  else if contains (L "Defaults") d || contains (L "defaults") d then Some K_prose_mentions_defaults
+  else
+    match shown_value v t with
+    | Err _ => Some K_unmodelled
+    | Ok s =>
+      if negb (value_announce_ok a s) then Some K_value_announces
+      else if negb (str_eqb (scan_default s 0) s) then Some K_scan_cut
+      else if negb (str_eqb (strip_chars strip_set s) s) then Some K_strip_changes
+      else if negb (startswith [ch 40] s) && endswith (L ").") s then Some K_paren_rule
+      else
+        match coerce_default t s with
+        | Err Unmodelled => Some K_unmodelled
+        | Err _ => Some K_typed_literal
+        | Ok v2 =>
+          if same_default v v2 then None
+          else match v, t with
+               | VStr _, None => Some K_str_reads_as_other
+               | _, _ => Some K_typed_literal
+               end
         end
-      end
-  end.
+    end.
 
+(* the proved region: in the domain and outside every class *)
 Definition guard_C17 (a : announce) (d : str) (v : pyval) (t : option str) : bool :=
-  match finding_class_C17 a d v t with None => true | Some _ => false end.
+  C17_domain d && match finding_class_C17 a d v t with None => true | Some _ => false end.
 
 (* wire *)
 Definition dec_announce (e : sexp) : option announce :=
@@ -182,13 +166,15 @@ Definition dec_announce (e : sexp) : option announce :=
   else if is_sym "default-colon" e then Some ADefaultColon
   else None.
 
+(* FAMILY: run_c17 *)
 Definition run_c17 (fn : sexp) (args : list sexp) : option sexp :=
   match args with
   | [a; d; v; t] =>
     match dec_announce a, dec_str d, dec_pyval v, dec_option dec_str t with
     | Some a, Some d, Some v, Some t =>
       if is_sym "c17_class" fn then
-        Some (enc_option (fun k => enc_str (class_name k)) (finding_class_C17 a d v t))
+        Some (if negb (C17_domain d) then sym "out-of-domain"
+              else enc_option (fun k => enc_str (class_name k)) (finding_class_C17 a d v t))
       else if is_sym "c17_render" fn then Some (enc_outcome enc_str (render a d v t))
       else if is_sym "c17_holds" fn then
         Some (if c17_touches_unmodelled a d v t then sym "unmodelled" else enc_bool (C17_at_b a d v t))
